@@ -210,7 +210,14 @@ Inductive value :=
 | VNpBool (b : bool)
 | VNpOther (s : text)                      (* str_, bytes_, datetime64, complex: str(value) *)
 | VNpArray (v : value)                     (* ndarray; v describes value.tolist() *)
-| VNpTimedelta (is_nat linear : bool) (cnt : Z). (* timedelta64: NaT?, unit with a fixed length?, nanoseconds (months for month/year units) *)
+| VNpTimedelta (is_nat linear : bool) (cnt : Z)  (* timedelta64: NaT?, unit with a fixed length?, nanoseconds (months for month/year units) *)
+| VSub (v : value).                        (* an instance of a proper SUBCLASS of the class of v (int / float / str / bytes / Decimal / date /
+                                              datetime / timedelta / dict / list / tuple subclass, IntEnum, OrderedDict, namedtuple, ...; for
+                                              VNpArray: numpy.ma.MaskedArray, numpy.matrix, numpy.recarray, a user subclass of ndarray).
+                                              v describes it exactly as it would describe a base-class instance of equal content. *)
+
+(* every class test of ascii_table is an isinstance test (display.py 208-310): a subclass instance takes the branch of its base class *)
+Fixpoint unsub (v : value) : value := match v with VSub x => unsub x | x => x end.
 
 (* a cell: the value and str(value) when it is not the value's own text *)
 Record cell := mkcell { cv : value; cs : option text }.
@@ -222,7 +229,7 @@ Definition cell_str (c : cell) : text :=
   match cs c with
   | Some s => s
   | None =>
-    match cv c with
+    match unsub (cv c) with
     | VNone => T "None"
     | VBool b | VNpBool b => bool_text b
     | VInt s | VFloat _ s | VDecimal s | VStr s | VOther s | VNpInt s | VNpFloat _ s | VNpOther s => s
@@ -230,7 +237,7 @@ Definition cell_str (c : cell) : text :=
     end
   end.
 
-Definition is_none (c : cell) : bool := match cv c with VNone => true | _ => false end.
+Definition is_none (c : cell) : bool := match unsub (cv c) with VNone => true | _ => false end.
 
 (* numpy_type_mapper (lines 205-224) *)
 Definition DAY_NS : Z := 86400000000000%Z.
@@ -304,10 +311,15 @@ Definition fmt_value (v : value) (w : nat) : result text :=
   | VNpInt s | VNpFloat _ s | VNpOther s => Ok (take w (ljust w s))
   | VNpBool b => Ok (take w (ljust w (bool_text b)))
   | VNpArray _ | VNpTimedelta _ _ _ => Ok (take w (spaces w))
+  (* a subclass mark never reaches here either: type_formatter strips it before and after np_map *)
+  | VSub _ => Ok (take w (spaces w))
   end.
 
+(* isinstance(value, (numpy.generic, numpy.ndarray)) -> numpy_type_mapper (itself isinstance(value, numpy.ndarray) -> tolist());
+   then the isinstance chain over what came back (an object array's tolist() hands back the objects it holds, subclass
+   instances included) *)
 Definition type_formatter (c : cell) (w : nat) : result text :=
-  bind (np_map (cv c)) (fun v => fmt_value v w).
+  bind (np_map (unsub (cv c))) (fun v => fmt_value (unsub v) w).
 
 (* ------------------------------------------------------------------ *)
 (* (a) row selection and labelling (lines 169-203, 379-407) *)
@@ -407,6 +419,12 @@ Record frame := mkframe {
   rows : list (list cell);
   lazy : bool
 }.
+
+(* the same frame with every subclass mark removed: each cell replaced by the base-class instance of equal content
+   (round 4; Props: C18_subclass_frame_as_base) *)
+Definition erase_cell (c : cell) : cell := mkcell (unsub (cv c)) (cs c).
+Definition erase_frame (f : frame) : frame :=
+  mkframe (names f) (ctypes f) (map (map erase_cell) (rows f)) (lazy f).
 
 Record config := mkconfig {
   limit : nat; dwidth : nat; mcw : nat; colorize : bool; top_tail : bool; show_types : bool
